@@ -28,7 +28,7 @@ RULE = ("state = (C unit, target, opt level, configuration (PYTHONHASHSEED, allo
         "{0,2}, script contexts after-two-others / same-twice / other-target-first, plus all depth-2 words over {P,Q,X} ending in P from a "
         "pristine process (target pair rotated by configuration number + VERIF_SEED); thorough: seeds {0..3} x {pymalloc, malloc} x pad {0,1,17,4099}, 10 targets, 51 units (3 heaviest only in the 8 "
         "configurations at distance <= 1 from the reference), all words of depth 3 (configurations differing from the reference in the "
-        "seed only, 2 target pairs) or 2 over {P,Q,X}, every unit as first compilation of a process for 5 targets; distinct non-trivial = distinct (target, level, object digest) of a compiled unit")
+        "seed only, 2 target pairs) or 2 over {P,Q,X}, every unit as first compilation of a process for each target pair; distinct non-trivial = distinct (target, level, object digest) of a compiled unit")
 ASSUMPTIONS = [
     "oracle: equality of ObjectFile.save text and of the linked image (save text + image bytes) with the reference state; no model of the compiler is involved",
     "every configuration process is deterministic: ASLR off (setarch -R), fixed minimal environment, fixed argv/cwd/stdin; the reference "
@@ -131,7 +131,7 @@ def shards(tier, cfg, ci, programs, asm_families):
         pairs, nchunk, pattern = PAIRS[:3], 2, "aab"
         progs = [p for p in programs if p not in QUICK_SKIP]
     else:
-        pairs, nchunk = PAIRS, 3
+        pairs, nchunk = PAIRS, (3 if distance(cfg) <= 1 else 2)
         pattern = "aabba" if distance(cfg) <= 1 else "aab"
         progs = [p for p in programs if distance(cfg) <= 1 or p not in HEAVY]
     chunks = [progs[i::nchunk] for i in range(nchunk)]   # interleaved: every chunk starts with a simple unit
@@ -159,11 +159,12 @@ def shards(tier, cfg, ci, programs, asm_families):
 
 
 def fresh_shards(programs):
-    """Thorough, reference configuration: every unit as the first compilation of a process (at -O2)."""
+    """Thorough, reference configuration: every unit as the first compilation of a process (at -O2), for every
+    target pair (the two targets of a pair take turns from unit to unit)."""
     out = []
-    for (t, x) in PAIRS:
-        for p in programs:
-            out.append(word_shard([[p, t, 2]]))
+    for pi, (t, x) in enumerate(PAIRS):
+        for n, p in enumerate(programs):
+            out.append(word_shard([[p, t if (n + pi) % 2 == 0 else x, 2]]))
     return out
 
 
